@@ -43,7 +43,7 @@ def run(ctx, report: Report) -> None:
 
     # ---- R1 / R3 -----------------------------------------------------------------------------------------
     r1 = report.rule('C08-R1', 'only the documented TypeError leaves the matching API', floor=1)
-    r3 = report.rule('C08-R3', 'partial operations reachable from the matching API are discharged', floor=4)
+    r3 = report.rule('C08-R3', 'partial operations reachable from the matching API are discharged', floor=1)
     esc = {}
     for e in ENTRIES:
         esc.update(ef.escapes(e))
@@ -73,7 +73,7 @@ def run(ctx, report: Report) -> None:
                          f'(path {" -> ".join(e.path[-5:])})')
 
     # ---- R2 ------------------------------------------------------------------------------------------------
-    r2 = report.rule('C08-R2', 'util.lower() never receives None', floor=6)
+    r2 = report.rule('C08-R2', 'util.lower() never receives None', floor=4)
     # nullable-passthrough summaries: f(..., default) returns `default` or a normalised (non-None) value
     _, gabn = src.func('css_match._DocumentNav.get_attribute_by_name')
     params = [a.arg for a in gabn.args.args]
@@ -155,7 +155,7 @@ def run(ctx, report: Report) -> None:
         raise AnalysisError(f'only {n_sites} util.lower call sites found')
 
     # ---- R4 ------------------------------------------------------------------------------------------------
-    r4 = report.rule('C08-R4', 'values from get_parent() are None-tested before they are dereferenced', floor=3)
+    r4 = report.rule('C08-R4', 'values from get_parent() are None-tested before they are dereferenced', floor=2)
     # only possibly-None dereferences count: an argument-type complaint is not a run-time failure by itself
     errs = [e for e in tf.errors if 'css_match.py' in e and '[union-attr]' in e and '"None"' in e]
     for e in errs:
@@ -187,7 +187,7 @@ def run(ctx, report: Report) -> None:
                                  f'{q} suppresses a possibly-None attribute access with type: ignore')
 
     # ---- R5 ------------------------------------------------------------------------------------------------
-    r5 = report.rule('C08-R5', 'ancestor / sibling walks advance on every path back to the loop head', floor=6)
+    r5 = report.rule('C08-R5', 'ancestor / sibling walks advance on every path back to the loop head', floor=4)
     from ..pathwalk import Domain, Walker
     for q, fn in mmod.functions.items():
         if f'css_match.{q}' not in reach and not q.startswith(('CSSMatch.', '_DocumentNav.')):
@@ -303,7 +303,7 @@ def run(ctx, report: Report) -> None:
     no_raise_table(ctx, r8, deep=(ctx.tier == 'thorough'))
 
     # ---- R9 --------------------------------------------------------------------------------------------------------------
-    r9 = report.rule('C08-R9', 'tree walks are iterative: no navigation helper is part of a call cycle', floor=9)
+    r9 = report.rule('C08-R9', 'tree walks are iterative: no navigation helper is part of a call cycle', floor=6)
     from .sem import no_tree_recursion_rule
     no_tree_recursion_rule(ctx, r9)
 
